@@ -66,6 +66,7 @@ claimed = {
              "earlier preflight to the other URL must not change the answer.", design="5 (C09)"),
 }
 not_applicable = {
+ "C16": "the statement is about the composition of encoding/json, encoding/xml, compress/gzip and compress/zlib (reflection-driven marshalling, data-dependent inflate/deflate loops): none of that can be executed by an SSA->SMT encoder within reach, and with those packages stubbed nothing of the stated equality is left to decide; go-restful's own part (accessor lookup, decompressor acquire/Reset/release, no panic on a failing Reset or zlib header) is covered under C05 and C13",
 }
 for p in props:
     if p['id'] not in claimed and p['id'] not in not_applicable:
